@@ -62,6 +62,32 @@ fn battery(
     }
     positions.push((u32::MAX, u32::MAX));
     positions.push((0, u32::MAX));
+    // identifier occurrences: every word start gets hover and definition (the requests that follow a name into
+    // another module), and a sample of them the whole battery
+    let mut words: Vec<(u32, u32)> = Vec::new();
+    for (li, line) in lines.iter().enumerate() {
+      let b = line.as_bytes();
+      for i in 0..b.len() {
+        let w = |x: u8| x.is_ascii_alphanumeric() || x == b'_';
+        if w(b[i]) && (i == 0 || !w(b[i - 1])) && b[i].is_ascii_alphabetic() {
+          words.push((li as u32, i as u32));
+        }
+      }
+    }
+    for (l, c) in words.iter().copied() {
+      let p = Position(l, c);
+      run("hover", n, (l, c), &mut || {
+        let _ = query::hover(state, &m, p);
+      });
+      run("definition", n, (l, c), &mut || {
+        let _ = query::definition_location(state, &m, p);
+      });
+    }
+    if !words.is_empty() {
+      for _ in 0..npos {
+        positions.push(words[rng.below(words.len() as u64) as usize]);
+      }
+    }
     for (l, c) in positions {
       let p = Position(l, c);
       run("hover", n, (l, c), &mut || {
